@@ -88,7 +88,7 @@ Proof.
     destruct (f_st f =? 7).
     { destruct (reg_get (gen s) (f_sys f) (reg s)) as [id|]; [cbn; apply OF | reflexivity]. }
     destruct ((f_st f =? 4) || (f_st f =? 6)).
-    { destruct (reg_get (gen s) (f_sys f) (reg s)) as [id|]; [cbn; apply OF | reflexivity]. }
+    { destruct (route_ctl p s f) as [id|]; [cbn; apply OF | reflexivity]. }
     destruct (f_st f =? 5); reflexivity.
 Qed.
 
